@@ -24,8 +24,10 @@ def check(run, prog, tier):
     so = run.need(unit.funcs.get("save_object"), "save_object")
     sor = run.need(unit.funcs.get("save_object_recurse"), "save_object_recurse")
     sv = run.need(unit.funcs.get("save_variable"), "save_variable")
-    ss = run.need(unit.funcs.get("svalue_save_size"), "svalue_save_size")
-    sw = run.need(unit.funcs.get("save_svalue"), "save_svalue")
+    import inline as _inl
+    # with small file-local helpers spliced in: a case body may live in a helper on either side
+    ss = _inl.inlined(run.need(unit.funcs.get("svalue_save_size"), "svalue_save_size"))
+    sw = _inl.inlined(run.need(unit.funcs.get("save_svalue"), "save_svalue"))
     srs = run.need(unit.funcs.get("safe_restore_svalue"), "safe_restore_svalue")
     for f in (so, sor, sv, ss, sw, srs):
         run.saw(f)
@@ -419,6 +421,16 @@ def check(run, prog, tier):
     run.rule("C16-h", "save/restore recursion: every call cycle among the save/restore functions of lib/lpc/object.c passes through a function whose calls into the cycle are all preceded by a test of a nesting counter against a constant bound (the counter is incremented in the cycle), or only re-walks text whose nesting the bounded size pass has already measured (restore_size dominates it in every top-level caller)", 3)
     cg = callgraph.CallGraph(prog)
     fam = {f.name: f for f in unit.funcs.values() if f.name.startswith(("restore", "save", "svalue_save", "safe_restore"))}
+    # plus the file-local functions they call, whatever those are called
+    grew = True
+    while grew:
+        grew = False
+        for f in list(fam.values()):
+            for b, i, n in f.calls():
+                g = unit.funcs.get(n.get("fn"))
+                if g is not None and g.static and g.file == f.file and g.name not in fam:
+                    fam[g.name] = g
+                    grew = True
     # Tarjan over the family
     idx, low, onst, st, sccs = {}, {}, set(), [], []
 
@@ -496,9 +508,13 @@ def check(run, prog, tier):
         run.saw(fam[comp[0]])
         bounded_by = verdicts[comp_t]
         verdict = True if bounded_by else False
-        if not bounded_by and len(comp) == 1 and comp[0] in STRUCTURAL:
-            run.ob("C16-h", "cycle:%s" % comp[0], True, "structural recursion: " + STRUCTURAL[comp[0]], fam[comp[0]].file, fam[comp[0]].line, comp[0])
-            continue
+        if not bounded_by and len(comp) == 1:
+            f1 = fam[comp[0]]
+            selfcalls = [n for b, i, n in f1.calls(comp[0])]
+            over_inherits = bool(selfcalls) and all(any(x.get("k") == "Mem" and x.get("f") == "inherit" for a in n.get("args", []) for x in walk(a)) for n in selfcalls)
+            if comp[0] in STRUCTURAL or over_inherits:
+                run.ob("C16-h", "cycle:%s" % comp[0], True, "structural recursion: " + STRUCTURAL.get(comp[0], "recurses over prog->inherit[], the inherit tree of a compiled program: finite and acyclic by construction, its depth is not input-controlled"), f1.file, f1.line, comp[0])
+                continue
         if not bounded_by:
             # (a) entered only from sites dominated by a call of the bounded measuring pass
             entries = [(g, b, n) for m in comp for (g, b, i, n) in cg.sites.get(m, []) if g.name not in comp]
